@@ -2,9 +2,11 @@
 @supports, unknown at-rules and @at-root (with/without queries), declarations before/after nested rules."""
 from .ast import S
 
-TOP_SELS = ["a", ".b", "#c", "a, .b", ".x .y", "d > e", ".b:hover"]
+TOP_SELS = ["a", ".b", "#c", "a, .b", ".x .y", "d > e", ".b:hover", "a, .b, #c", ".x .y, d > e, f"]
 NESTED_SELS = ["a", ".b", "#c", "&", "&-s", "&.t", "&:hover", ".x &", "& > y", "& + &", "& .z", "a, .b", "&-s, .q", "& ~ w", "&, .m", "> k", "+ k",
-               ":not(&)", "u:not(&)", ":is(&) v", "&:not(.n)", "&::before", "&[x]", "q &, & r", "&-s &-t", ".o:where(&)"]
+               ":not(&)", "u:not(&)", ":is(&) v", "&:not(.n)", "&::before", "&[x]", "q &, & r", "&-s &-t", ".o:where(&)",
+               # lists whose members multiply differently against the parent list (1 / n / n*n results)
+               ":not(&), .n", "& + &, .z", ".x, & &", "&, :is(&) v, & &", "& > &, &-s, .q"]
 MEDIA = ["screen", "print", "(a)", "(b)", "screen and (a)", "(a) and (b)", "screen, print"]
 ATROOT_Q = [None, None, ("without", {"rule"}), ("without", {"media"}), ("without", {"all"}), ("with", {"rule"}), ("with", {"media"}),
             ("without", {"media", "rule"}), ("with", {"all"}), ("without", {"supports"}), ("with", {"supports", "media"}), ("without", {"foo"})]
